@@ -71,6 +71,10 @@ def world(I, has_seg=False, lineage=True, inv=("forest", "trackids", "b1", "b2")
     from pyvc.terms import lit as _lit
     W.assumed.append(("C10.F1.tracklet", AND(W.F.has(K.trk), _ft(W.F.at(K.trk)) == _lit("node"))))
     W.assumed.append(("C10.F1.lineage", IMP(W.act["lineage"], AND(W.F.has(K.lk), _ft(W.F.at(K.lk)) == _lit("node")))))
+    if not has_seg:
+        # without a segmentation the position is a required, registered node feature present on every node
+        W.assumed.append(("typing.position-present", AND(W.F.has(K.pk), _ft(W.F.at(K.pk)) == _lit("node"),
+                                                         forall([a_], IMP(v.N(a_), z3.Not(is_VNone(v.A(a_, K.pk))))))))
     # typing of lineage ids: an int or absent
     W.assumed.append(("typing.lineage", forall([a_], OR(is_VInt(T.lid(v, K, a_)), is_VNone(T.lid(v, K, a_))))))
     for lbl, f in W.assumed:
@@ -82,6 +86,9 @@ def world(I, has_seg=False, lineage=True, inv=("forest", "trackids", "b1", "b2")
     x = z3.Const("x!v", Val)
     ctx.assume(forall([x], IMP(OR(is_VInt(x), is_VNone(x)), z3.Not(is_nd(x)))))
     ctx.assume(forall([x], AND(z3.Not(is_nd(tolist(x))), z3.Not(is_VInt(tolist(x))), z3.Not(is_VNone(tolist(x))))))
+    # values stored on the graph are what the library's own writers produce: never raw ndarrays
+    kk = z3.Const("k!nd", Key)
+    ctx.assume(forall([a_, kk], z3.Not(is_nd(v.A(a_, kk)))), "inv.typing.no-ndarray")
     if "segfacts" in inv:
         B = below_of(I, W)
         W.bel0 = B
@@ -144,15 +151,19 @@ class WalkAssumed(Contract):
         for B0 in list(W.below.values()):
             if B0 is bel:
                 continue
-            ctx.assume(IMP(forall([a_, b_], IMP(AND(bel(start, a_), v0.E(a_, b_)), B0.v.E(a_, b_))),
-                           forall([a_], IMP(bel(start, a_), B0.rel(start, a_)))))
+            ant = forall([a_, b_], IMP(AND(bel(start, a_), v0.E(a_, b_)), B0.v.E(a_, b_)))
+            if B0.v is W.v0 and ctx.entails_slow(ant):
+                # antecedent established: use the conclusion directly (keeps the later queries small)
+                ctx.assume(forall([a_], IMP(bel(start, a_), B0.rel(start, a_))), "lemma.M3rel")
+                continue
+            ctx.assume(IMP(ant, forall([a_], IMP(bel(start, a_), B0.rel(start, a_)))))
             ctx.assume(IMP(forall([a_, b_], IMP(AND(B0.rel(start, a_), B0.v.E(a_, b_)), v0.E(a_, b_))),
                            forall([a_], IMP(B0.rel(start, a_), bel(start, a_)))))
+        # M1b (induction on the path): edge-wise equal lineage ids are equal along every descendant path
+        ctx.assume(IMP(forall([a_, b_], IMP(v0.E(a_, b_), T.lid(v0, K, a_) == T.lid(v0, K, b_))),
+                       forall([a_, b_], IMP(bel(a_, b_), T.lid(v0, K, a_) == T.lid(v0, K, b_)))), "lemma.M1b")
         tidf = lambda n: T.tid(v0, K, n)
-        tag = f"{ctx.func}/call/_handle_update_track_ids"
-        n_call = ctx.ghost.setdefault("walk_calls", 0)
-        ctx.ghost["walk_calls"] += 1
-        tag = f"{tag}#{n_call}"
+        tag = f"call:{getattr(I, 'walk_site', None) or I.call_site_id('_handle_update_track_ids')}/walk"
         # a walk that keeps the track id (new == old: lineage-only relabel) rewrites no track id whatever the
         # shape below start is, so P1/P2 are required only when the id really changes
         same_tid = ctx.entails(new == old)
@@ -182,7 +193,22 @@ class WalkAssumed(Contract):
         mT = to_z3(ta.fields["max_tracklet_id"], Int)
         ta.fields["max_tracklet_id"] = Sym(z3.If(iv(new) > mT, iv(new), mT))
         cL = ta.fields["lineage_id_to_nodes"]
-        cL.havoc(ctx)  # lineage lookup: specified by the C06 contract of the real body, not needed by callers here
+        if getattr(W, "lineage_lookup_contract", False):
+            # lineage half of the contract (C06/C01): if the lookup agreed with the graph and the subtree below
+            # start carried one lineage id, the lookup agrees with the graph afterwards
+            for lbl, f in T.B1(v0, K, cL, "lin"):
+                ctx.oblige(f"{tag}/requires:{lbl}", IMP(upd_lin, f), kind="pre", props=("C06", "C01"))
+            ctx.oblige(f"{tag}/requires:one-lineage-id-below-start",
+                       IMP(upd_lin, forall([a_], IMP(bel(start, a_), T.lid(v0, K, a_) == T.lid(v0, K, start)))),
+                       kind="pre", props=("C06", "C01"))
+            snapL = cL.snapshot()
+            cL.havoc(ctx)
+            for _, f in T.B1(v1, K, cL, "lin"):
+                ctx.assume(IMP(upd_lin, f), "cache.L2N.B1")
+            i, n = z3.Ints("i!wl n!wl")
+            ctx.assume(IMP(z3.Not(upd_lin), same_cache(snapL, cL.snapshot())), "cache.L2N.frame")
+        else:
+            cL.havoc(ctx)  # lineage lookup not needed by this caller
         mL = to_z3(ta.fields["max_lineage_id"], Int)
         ta.fields["max_lineage_id"] = Sym(z3.If(AND(upd_lin, iv(newl) > mL), iv(newl), mL))
         ctx.ghost["log"].append(("walk", start, old, new, nl))
@@ -204,8 +230,7 @@ class NeighborsAssumed(Contract):
         K, v = W.K, W.st.v
         tidv = to_z3(track_id, Val)
         t = to_z3(time, Int)
-        tag = f"{ctx.func}/call/get_track_neighbors#{ctx.ghost.setdefault('nb_calls', 0)}"
-        ctx.ghost["nb_calls"] += 1
+        tag = f"call:{I.call_site_id('get_track_neighbors')}"
         cT = W.ta.fields["tracklet_id_to_nodes"]
         for lbl, f in T.B1(v, K, cT, "trk"):
             ctx.oblige(f"{tag}/requires:{lbl}", f, kind="pre", props=("C06",))
@@ -234,7 +259,7 @@ class HasTrackAtTimeAssumed(Contract):
         _tracks, track_id, time = args
         K, v = W.K, W.st.v
         tidv, t = to_z3(track_id, Val), to_z3(time, Int)
-        tag = f"{ctx.func}/call/has_track_id_at_time"
+        tag = f"call:{I.call_site_id('has_track_id_at_time')}"
         for lbl, f in T.B1(v, K, W.ta.fields["tracklet_id_to_nodes"], "trk"):
             ctx.oblige(f"{tag}/requires:{lbl}", f, kind="pre", props=("C06",))
         r = ctx.fresh("has_tid_at_t", Bool)
